@@ -432,6 +432,9 @@ class C10(Engine):
 			scheds.append([{'q': 'expand', 'p': 1}, {'q': 'children', 'p': 1}, {'q': 'expand', 'p': 1}, {'q': 'n.props', 'p': 1}, {'q': 'clear', 'p': 0}, {'q': 'children', 'p': 1}, {'q': 'by', 'p': 1}, {'q': 'by', 'p': 1}])
 			scheds.append(gen_queries(rng, 120, [k for k in QUERY_KINDS]))
 			cases.append({'pool': pool, 'tree': tree, 'schedules': scheds, 'pluck_budget': 100000})
+		ex = pools.example_pool()
+		for m in ex['modules']:
+			cases.append({'pool': ex, 'tree': {'kind': 'module', 'module': m}, 'schedules': [gen_queries(rng, 300, QUERY_KINDS), gen_queries(rng, 300, [k for k in QUERY_KINDS if k != 'clear'])], 'pluck_budget': 2000})
 		return cases
 
 	def generate(self, rng: random.Random, index: int) -> dict[str, Any]:
